@@ -94,10 +94,13 @@ Fixpoint seq_concat {A} (l : list (res (list A))) : res (list A) :=
 (* Model switches for two repairs that have landed in /repo (D73 = D31, D77 = overlap).  The code as it is = asis;
    nofix is the code before them (kept for the before-fix notes and the revert tests).
      fix_D31     : a named level that the circuit lacks yields no node instead of KeyError
-     fix_overlap : run() reads the backend columns of a wildcard key without popping them *)
-Record fixes := { fix_D31 : bool; fix_overlap : bool }.
-Definition nofix : fixes := {| fix_D31 := false; fix_overlap := false |}.
-Definition asis : fixes := {| fix_D31 := true; fix_overlap := true |}.
+     fix_overlap : run() reads the backend columns of a wildcard key without popping them
+     fix_short   : (proposed) a pattern whose last name is a sub-circuit denotes no node
+     fix_popwild : (proposed) a population inside a dict-form wildcard key is split into one column per unit *)
+Record fixes := { fix_D31 : bool; fix_overlap : bool; fix_short : bool; fix_popwild : bool }.
+Definition nofix : fixes := {| fix_D31 := false; fix_overlap := false; fix_short := false; fix_popwild := false |}.
+Definition asis : fixes := {| fix_D31 := true; fix_overlap := true; fix_short := false; fix_popwild := false |}.
+Definition allfixes : fixes := {| fix_D31 := true; fix_overlap := true; fix_short := true; fix_popwild := true |}.
 
 Fixpoint get_nodes_gen (F : fixes) (t : tree) (v : varid) (pat : list string) {struct t} : res (list path) :=
   match t with
@@ -113,7 +116,9 @@ Fixpoint get_nodes_gen (F : fixes) (t : tree) (v : varid) (pat : list string) {s
       match pat with
       | [] => Err IndexError
       | [p] =>
-          if mem p (map fst ch) then gnwv (Circ ch) v [[p]]
+          if mem p (map fst ch) then
+            (if fix_short F && match assoc p ch with Some s => is_circ s | None => false end then Ok []
+             else gnwv (Circ ch) v [[p]])
           else if String.eqb p all then
             if existsb (fun c => is_circ (snd c)) ch
             then (* for n in net: nodes.extend(self.get_nodes(f"{n}/all")) *)
@@ -185,7 +190,7 @@ Fixpoint chk (km kl ks : bool) (t : tree) (pat : list string) : bool :=
                end
       end
   end.
-Definition resolvable_gen (F : fixes) := chk (fix_D31 F) false false.
+Definition resolvable_gen (F : fixes) := chk (fix_D31 F) false (fix_short F).
 Definition resolvable := chk true false false.
 Definition names_resolve := chk false true true.
 Definition not_too_long := chk true false true.
@@ -344,10 +349,10 @@ Definition expand_cols (lab : label) (vec : string) (idxs : list nat) : list (la
 
 (* DataFrame construction: a population inside a wildcard key leaves a 2-D array among 1-D ones: np.asarray raises
    ValueError *)
-Definition build_cols (lv : list colreq) (srcs : list (string * list nat)) : res (list (label * (string * nat))) :=
+Definition build_cols (pw : bool) (lv : list colreq) (srcs : list (string * list nat)) : res (list (label * (string * nat))) :=
   seq_concat (map (fun x : colreq * (string * list nat) =>
                      let '((lab, v, ex), (vec, idxs)) := x in
-                     if ex then Ok (expand_cols lab vec idxs)
+                     if ex || pw then Ok (expand_cols lab vec idxs)
                      else match idxs with [i] => Ok [(lab, (vec, i))] | _ => Err ValueError end)
                   (combine lv srcs)).
 
@@ -361,19 +366,19 @@ Definition dict_colreqs (es : list (string * entry)) : list colreq :=
    Order of the failures as in run(): resolving the paths and the indices (get_variable_positions), then
    outputs.pop (several wildcard keys that expand to a common variable: the second pop raises KeyError), then the
    DataFrame (no column at all: ValueError).  Since fix D43 a plain key inside a MultiIndex frame keeps its label. *)
-Definition finish (L : layout) (overlap : bool) (lv : list colreq) : res (list (label * (string * nat))) :=
+Definition finish (pw : bool) (L : layout) (overlap : bool) (lv : list colreq) : res (list (label * (string * nat))) :=
   bind (map_res (fun x : colreq => source_of L (snd (fst x))) lv) (fun srcs =>
     if overlap then Err KeyError else
-    match lv with [] => Err ValueError | _ => build_cols lv srcs end).
+    match lv with [] => Err ValueError | _ => build_cols pw lv srcs end).
 
 Definition run_columns_gen (F : fixes) (t : tree) (L : layout) (f : form) (reqs : list request) : res (list (label * (string * nat))) :=
   match f with
   | DictForm =>
       bind (positions_dict_gen F t reqs) (fun es =>
-        finish L (negb (fix_overlap F) && negb (dupfree (multi_vars es))) (dict_colreqs es))
+        finish (fix_popwild F) L (negb (fix_overlap F) && negb (dupfree (multi_vars es))) (dict_colreqs es))
   | ListForm | ListFormOld =>
       bind (positions_list_gen F t L (match f with ListFormOld => true | _ => false end) reqs []) (fun vs =>
-        finish L false (map (fun v => ([join "/" v], v, true)) vs))
+        finish (fix_popwild F) L false (map (fun v => ([join "/" v], v, true)) vs))
   end.
 Definition run_columns := run_columns_gen asis.
 
